@@ -286,7 +286,7 @@ def analyse_job(job):
     prop = job.get("prop")
     # masks are vectors of booleans: their operations must not depend on the floating-point environment, so
     # C03 also evaluates closed forms that contain float compares with MXCSR.DAZ set
-    lanecheck.DAZ_MODE[0] = (prop == "C03")
+    lanecheck.DAZ_MODE[0] = (prop == "C03") or vt.is_int      # (integer operations likewise: agent9_C02)
     lanecheck.BDD_NODES[0] = 250000 if job.get("tier", "quick") == "quick" else 1500000
     insts = ops.FAMILIES[job["fam"]](vt, _C)
     if prop:
